@@ -84,7 +84,42 @@ class EdgeOdometry(BaseEdge):
             The error for the edge
 
         """
-        return (self.estimate - (self.vertices[1].pose - self.vertices[0].pose)).to_compact()
+        err_pose = self.estimate - (self.vertices[1].pose - self.vertices[0].pose)
+        err = err_pose.to_compact()
+
+        # `q` and `-q` are the same rotation, so use the error quaternion whose scalar part is positive (if the
+        # scalar part is zero: whose first non-zero component is positive); otherwise the error would depend on
+        # the signs of the quaternions of the estimate and the poses
+        if self._negate_rotational_error(err_pose):
+            err[3:] = -err[3:]
+
+        return err
+
+    @staticmethod
+    def _negate_rotational_error(err_pose):
+        """Check whether the rotational part of the compact error needs to be negated.
+
+        Parameters
+        ----------
+        err_pose : BasePose
+            The (non-compact) error pose
+
+        Returns
+        -------
+        bool
+            Whether the first non-zero component of the error quaternion (in the order w, x, y, z) is negative
+
+        """
+        if not isinstance(err_pose, PoseSE3):
+            return False
+
+        for component in (err_pose[6], err_pose[3], err_pose[4], err_pose[5]):
+            if component < 0.:
+                return True
+            if component > 0.:
+                return False
+
+        return False
 
     def calc_jacobians(self):
         r"""Calculate the Jacobian of the edge's error with respect to each constrained pose.
@@ -101,9 +136,16 @@ class EdgeOdometry(BaseEdge):
 
         """
         # fmt: off
-        return [np.dot(np.dot(self.estimate.jacobian_self_ominus_other_wrt_other_compact(self.vertices[1].pose - self.vertices[0].pose), self.vertices[1].pose.jacobian_self_ominus_other_wrt_other(self.vertices[0].pose)), self.vertices[0].pose.jacobian_boxplus()),
-                np.dot(np.dot(self.estimate.jacobian_self_ominus_other_wrt_other_compact(self.vertices[1].pose - self.vertices[0].pose), self.vertices[1].pose.jacobian_self_ominus_other_wrt_self(self.vertices[0].pose)), self.vertices[1].pose.jacobian_boxplus())]
+        jacobians = [np.dot(np.dot(self.estimate.jacobian_self_ominus_other_wrt_other_compact(self.vertices[1].pose - self.vertices[0].pose), self.vertices[1].pose.jacobian_self_ominus_other_wrt_other(self.vertices[0].pose)), self.vertices[0].pose.jacobian_boxplus()),
+                     np.dot(np.dot(self.estimate.jacobian_self_ominus_other_wrt_other_compact(self.vertices[1].pose - self.vertices[0].pose), self.vertices[1].pose.jacobian_self_ominus_other_wrt_self(self.vertices[0].pose)), self.vertices[1].pose.jacobian_boxplus())]
         # fmt: on
+
+        # The rotational part of the error may have been negated (see `calc_error`)
+        if self._negate_rotational_error(self.estimate - (self.vertices[1].pose - self.vertices[0].pose)):
+            for jacobian in jacobians:
+                jacobian[3:] = -jacobian[3:]
+
+        return jacobians
 
     def to_g2o(self):
         """Export the edge to the .g2o format.
